@@ -192,3 +192,34 @@ def run(ctx: Context) -> None:  # noqa: F811
 
     ctx.rep.rule('C07.R10', 'a connection created for a request accepts that request: the origin it is created with is stored unchanged, so the origin gate - which runs before the failure-marking try - cannot reject it (a rejected fresh connection stays CONNECTING forever)')
     plumb.plumbing(ctx, 'C07.R10', ['origin', 'remote_origin'])
+
+
+
+_core_run_r11 = run
+
+
+def run(ctx: Context) -> None:  # noqa: F811
+    _core_run_r11(ctx)
+    rep = ctx.rep
+    rep.rule("C07.R11", "a connection that is still being established reports itself available when it may become HTTP/2, judged on the origin it SERVES: the scheme test in "
+                        "is_available() reads the same origin field that can_handle_request() compares with (a test on another origin makes requests queue behind a connection "
+                        "that could multiplex them)")
+    n = 0
+    for tree, N in trees(ctx):
+        for mod, cn in (("connection", "AsyncHTTPConnection"), ("socks_proxy", "AsyncSocks5Connection"), ("http_proxy", "AsyncTunnelHTTPConnection")):
+            c = N.cls(mod, cn)
+            ch, av = c.methods.get("can_handle_request"), c.methods.get("is_available")
+            if ch is None or av is None:
+                continue
+            served = {norm(x) for cmp in own_nodes(ch.node) if isinstance(cmp, ast.Compare) for x in [cmp.left] + list(cmp.comparators)
+                      if isinstance(x, ast.Attribute) and norm(x).startswith("self.")}
+            schemes = [a for a in own_nodes(av.node) if isinstance(a, ast.Attribute) and a.attr == "scheme"]
+            if not schemes:
+                continue
+            n += 1
+            bad = [a for a in schemes if norm(a.value) not in served]
+            rep.ob("C07.R11", fkey(tree, av, "scheme-of-served-origin"), len(served) == 1 and not bad, where(av, bad[0] if bad else schemes[0]),
+                   f"is_available() tests the scheme of {sorted(served)}, the origin can_handle_request() compares with" if len(served) == 1 and not bad else
+                   f"is_available() tests `{ast.unparse(bad[0]) if bad else '?'}` but the connection serves {sorted(served)}: whether the connection can become HTTP/2 (and so take "
+                   "further requests while it connects) is decided on the wrong origin")
+    rep.floor("C07.R11", "establishing connection classes with a scheme test in is_available()", n, 2)
